@@ -94,9 +94,11 @@ class InitialMesh:
                 self.nbrs[edge] = elem
 
     def vertex_from_coords(self, xy):
+        # Accept tuples, lists and (2, 1) arrays.
+        x, y = (float(c) for c in np.asarray(xy, dtype=float).flatten())
         result = None
         for vtx in self.vertices:
-            if isclose(vtx.x, xy[0]) and isclose(vtx.y, xy[1]):
+            if isclose(vtx.x, x) and isclose(vtx.y, y):
                 assert result is None
                 result = vtx
         return result
@@ -212,8 +214,9 @@ class InitialMesh:
                     if va[n_axis] - eps * abs(va[n_axis]) <= v0[n_axis] <= v1[
                             n_axis] <= vb[n_axis] + eps * abs(vb[n_axis]):
                         # If this elements edge coincides with v0, v1, return!
-                        if isclose(va[n_axis], v0[n_axis]) and isclose(
-                                v1[n_axis], vb[n_axis]):
+                        if isclose(va[n_axis].item(),
+                                   v0[n_axis].item()) and isclose(
+                                       v1[n_axis].item(), vb[n_axis].item()):
                             return elem
                         parent = elem
 
